@@ -1,6 +1,7 @@
 package c15
 
 import (
+	"encoding/json"
 	"fmt"
 	"strings"
 	"testing"
@@ -121,6 +122,21 @@ func TestFileShapes(t *testing.T) {
 		}
 	}
 	run("cluster-only", fileDoc(nil, only))
+	// a section (or a whole group of sections) present in the file with a
+	// value that is not a settings object
+	for _, s := range sections {
+		for _, v := range []string{"null", "{}", "[]", "5", `"x"`, "true"} {
+			run("section-is-"+v+":"+s.name, fileDoc(map[string][]byte{s.name: []byte(v)}, nil))
+		}
+	}
+	for _, g := range []string{"cluster", "consensus", "api", "ipfs_connector", "pin_tracker", "monitor", "allocator", "informer", "observations", "datastore"} {
+		for _, v := range []string{"null", "{}", "[]", "5"} {
+			var doc map[string]json.RawMessage
+			json.Unmarshal(fileDoc(rich, nil), &doc)
+			doc[g] = json.RawMessage(v)
+			run("group-is-"+v+":"+g, mustJSON(doc))
+		}
+	}
 	run("empty-object", []byte("{}"))
 	run("not-json", []byte("{"))
 	run("unknown-section", []byte(`{"cluster":`+string(sectionByName("cluster").base)+`,"consensus":{"nosuch":{"a":1}}}`))
